@@ -327,8 +327,12 @@ func runUnit(w *World, u *unitRun, tmp string, quickT, slowT int, verbose bool) 
 		// the clauses that speak about x can no longer be generated - reported as failed obligations (a violation),
 		// like lost `callsite ... requires` anchors, not as a machinery error.
 		var lost []*Result
+		unknownName := ""
+		if mm := regexp.MustCompile(`unknown name "([^"]+)"`).FindStringSubmatch(err.Error()); mm != nil {
+			unknownName = mm[1]
+		}
 		for _, gh := range u.Fc.Ghosts {
-			if g.sitesSeen["ghost "+gh.Name+"@"+gh.Site] {
+			if g.sitesSeen["ghost "+gh.Name+"@"+gh.Site] || gh.Name != unknownName {
 				continue
 			}
 			word := regexp.MustCompile(`\b` + regexp.QuoteMeta(gh.Name) + `\b`)
